@@ -41,6 +41,7 @@ type Ctx struct {
 	fieldOwner map[*types.Var]string
 	eff        *Effects
 	fstores    []fieldStore
+	idx        *idxEngine
 
 	modFuncs   []*ssa.Function // all functions (incl. anonymous, methods) of module packages, tests excluded
 	depFuncs   []*ssa.Function // same for runewidth/uniseg
